@@ -93,8 +93,8 @@ mut("c19_save_repr_float_format", ["C19"], "mutant", "xfab/parameters.py",
 mut("c19_load_hyphen_dropped", ["C19"], "mutant", "xfab/parameters.py",
     "                name=name.replace(\"-\",\"_\")\n", "")
 mut("c19_load_always_float", ["C19"], "mutant", "xfab/parameters.py",
-    "                if abs(vi - vf) < 1e-9:\n                    # use int\n                    self.parameters[name] = vi",
-    "                if abs(vi - vf) < 1e-9 and False:\n                    # use int\n                    self.parameters[name] = vi")
+    "                if is_int:\n                    # use int\n                    self.parameters[name] = vi",
+    "                if is_int and False:\n                    # use int\n                    self.parameters[name] = vi")
 mut("c19_setvals_zip_variable_list", ["C19"], "mutant", "xfab/parameters.py",
     "        for name, value in zip(self.varylist,values):", "        for name, value in zip(self.variable_list,values):")
 mut("c19_getvals_sorted", ["C19"], "mutant", "xfab/parameters.py",
@@ -180,6 +180,18 @@ mut("hkl_control_unique_other_member", ["C05", "C06"], "control", "xfab/laue.py"
 mut("hkl_control_default_rng", ["C05", "C06"], "control", "xfab/tools.py", UNIQ_T,
     "        (dummy, rows) = n.unique((a*n.random.random_sample(3)).sum(axis=1),\n                                   return_index=True)\n",
     note="different draw function on the same global stream")
+
+# ------------------------------------------------------------------ controls with locks (cooperative-lock seam)
+mut2("c20_control_lock_in_checks", ["C20"], "control", [
+    ("xfab/checks.py", "import numpy as np\n", "import numpy as np\nimport threading\n_check_lock = threading.Lock()\n", 1),
+    ("xfab/checks.py", "    if not np.allclose( np.dot(U.T, U), np.eye(3,3), atol=1e-6):\n        raise ValueError(\"orientation matrix U is not unitary, np.dot(U.T, U)!=np.eye(3,3)\")\n",
+     "    with _check_lock:\n        ok = np.allclose( np.dot(U.T, U), np.eye(3,3), atol=1e-6)\n    if not ok:\n        raise ValueError(\"orientation matrix U is not unitary, np.dot(U.T, U)!=np.eye(3,3)\")\n", 1),
+], note="non-reentrant lock around the orthonormality test: thread-safe code that a simulator parking the lock holder would deadlock")
+mut2("hkl_control_lock_around_generation", ["C05", "C06"], "control", [
+    ("xfab/tools.py", "import warnings\n", "import warnings\nimport threading\n_gen_lock = threading.Lock()\n", 1),
+    ("xfab/tools.py", "    H = genhkl_base(unit_cell, \n                      spg.syscond, \n                      sintlmin, sintlmax, \n                      crystal_system=spg.crystal_system, \n                      Laue_class = spg.Laue,\n                      cell_choice = spg.cell_choice,\n                      output_stl=True)\n\n    Hall = n.zeros((0,4))",
+     "    with _gen_lock:\n        H = genhkl_base(unit_cell, \n                      spg.syscond, \n                      sintlmin, sintlmax, \n                      crystal_system=spg.crystal_system, \n                      Laue_class = spg.Laue,\n                      cell_choice = spg.cell_choice,\n                      output_stl=True)\n\n    Hall = n.zeros((0,4))", 1),
+], note="genhkl_all serialises the traversal with a module-level lock")
 
 if __name__ == "__main__":
     subprocess.check_call("rm -rf %s && mkdir -p %s" % (OUT, OUT), shell=True)
